@@ -186,7 +186,7 @@ def record_workload(nrows: int, extra: int) -> Tuple[List[Dict[str, Any]], List[
     root = os.path.join(d, "tbl")
     try:
         lines, _err = S.run_strace(S.WORKLOAD_A, [root, str(nrows), str(extra)])
-        recs_a = S.parse_strace(lines)
+        recs_a, moved = S.causal_repair(S.parse_strace(lines))
         tr_a = S.build_trace(recs_a, root, S.Reach(root), {"entries": [], "reach": []}, loss=True)
         init_b = S.project_init(root)
         lines, err = S.run_strace(S.WORKLOAD_B, [root, str(nrows), str(extra)])
@@ -203,6 +203,7 @@ def record_workload(nrows: int, extra: int) -> Tuple[List[Dict[str, Any]], List[
         "gc_deleted": (int(gc.group(1)) + int(gc.group(2))) if gc else 0,
         "gc_unlinks": sum(1 for e in tr_b["events"] if e["op"] == "unlink" and e["cls"] in ("data", "manifest", "list")),
         "events": len(ev) + len(tr_b["events"]),
+        "cross_thread_reorder_repairs": moved,
     }
     tag = f"rows{nrows}-extra{extra}"
     return [tr_a, tr_b], [f"A[{tag}]", f"B[{tag}]"], stats
